@@ -32,7 +32,7 @@ PROGRAMS = [
     ),
     (
         "constants",
-        "v = [1e999-1e999, 1e999, -0.0, b'by', '\\udc80', 2j, 2**70, (1, (2.0, None)), ...]\nw = x in {1, 2}\n",
+        "v = [1e999-1e999, 1e999, -0.0, b'by', '\\udc80', 2j, 1e999j, (1e999-1e999)+2j, (-1e999j, 0.0), 2**70, (1, (2.0, None)), ...]\nw = x in {1, 2}\n",
     ),
     ("many-constants", "".join("a%d = %d\n" % (i, 3000 + i) for i in range(300))),
     ("unicode", "\u00e9 = '\U0001F600'\n"),
@@ -42,6 +42,8 @@ PROGRAMS = [
     ),
     ("far-lines", "x = 1\n" + "\n" * 300 + "y = f(\n" + "\n" * 130 + "x)\n"),
     # one-line suites: <=3.8 record extra line-table entries on argument-less instructions
+    # the two characters backslash+n inside literals: only -c un-escapes them
+    ("backslash-n", 'x = "a\\nb"\ny = r"\\n+"\n'),
     ("one-line-suites", "for i in a:\n    if i: break\ntry:\n    f()\nexcept E: pass\nclass A: pass\nclass A: pass\n"),
 ]
 
@@ -171,6 +173,9 @@ class C16(Monitor):
             with open(modpath, "rb") as f:
                 data = f.read()
             return compile(data, modpath, "exec", dont_inherit=True), src
+        if name == "-c":
+            # the CLI's documented convention: -c un-escapes backslash+n
+            src = src.replace("\n", "\\n").replace("\\n", "\n")
         return compile(src, "<string>", "exec", dont_inherit=True), src
 
     def run_inprocess(self, argv):
@@ -212,6 +217,14 @@ class C16(Monitor):
         stats.nontriv(("argv", case["sources"], case["flags"], case["prog"]))
         if case["flags"] in (0, 31):
             stats.sample("CLI", {"argv": [short(a, 60) for a in argv]}, per=3)
+        if len(given) == 1:
+            try:
+                self.expected_code(case, given)
+            except SyntaxError:
+                # e.g. -c un-escapes backslash+n inside a string literal: the text the
+                # option designates is not a valid program; outside the property
+                stats.skipped["not-a-valid-program-for-this-source-option"] += 1
+                return
         try:
             code, out, err = self.run_inprocess(argv)
         except HorizonHit:
